@@ -219,8 +219,11 @@ def run_c(exe, lines, timeout=40, valgrind=False):
 
 
 def run_lean(container, lines, timeout=300):
-    r = subprocess.run([str(driver_path(container))], input="\n".join(lines) + "\n", stdout=subprocess.PIPE,
-                       stderr=subprocess.PIPE, text=True, timeout=timeout)
+    try:
+        r = subprocess.run([str(driver_path(container))], input="\n".join(lines) + "\n", stdout=subprocess.PIPE,
+                           stderr=subprocess.PIPE, text=True, timeout=max(timeout, int(60 + 0.05 * len(lines))))
+    except subprocess.TimeoutExpired:
+        raise RuntimeError(f"lean driver for {container} timed out on {len(lines)} lines")
     out = r.stdout.split("\n")
     if out and out[-1] == "":
         out.pop()
